@@ -39,7 +39,15 @@ IdRank(i) == IF IdDesc THEN 100 - i ELSE i
 Ev(type, sender, skey, membership, plu, jr, prev, auth, depth, ts, i) ==
     [type |-> type, sender |-> sender, skey |-> skey, membership |-> membership, plu |-> plu, jr |-> jr,
      prev |-> prev, auth |-> auth, depth |-> depth, ts |-> ts, idr |-> IdRank(i), sha |-> IdRank(i), rejected |-> FALSE,
-     addl |-> {}, pud |-> Absent]
+     addl |-> {}, pud |-> Absent, spell |-> "int"]
+
+\* The spellings the power-levels events of the rooms of a run may use (StateRes.tla: "int" "str" "strpad" "float"
+\* "frac").  A plain definition, so that the other models built on Room.tla keep integer-only rooms; Room_gen's
+\* configurations override it (Spells <- GenSpells).  Only spellings the room version admits are ever used.
+Spells == {"int"}
+RoomSpells == {s \in Spells : SpellAdmitted(Ver, s)} \cup (IF \E s \in Spells : SpellAdmitted(Ver, s) THEN {} ELSE {"int"})
+\* the creation prefix written in spelling s (one writer: all its power-levels events use it)
+Spelled(seq, s) == [i \in DOMAIN seq |-> IF seq[i].type = "pl" THEN [seq[i] EXCEPT !.spell = s] ELSE seq[i]]
 
 InitPL == IF PrivilegedCreators(Ver) THEN NoUsers
           ELSE [u \in Users |-> IF u = "creator" THEN 4 ELSE Absent]
@@ -100,21 +108,25 @@ Prefix3 ==
         after |-> [i \in 1..10 |-> CASE i <= 6 -> 1..i [] i = 7 -> {1, 2, 4, 5, 7} [] i = 8 -> a8 [] i = 9 -> a9
                                      [] OTHER -> ApplyTo(E10, S, 10)]]
 
-InitRoom ==
-        \/ /\ Start = 1 /\ E = Prefix /\ after = [i \in 1..6 |-> 1..i] /\ last = 0
-        \/ /\ Start = 2 /\ E = Prefix2
+InitRoomS(s0) ==
+        \/ /\ Start = 1 /\ E = Spelled(Prefix, s0) /\ after = [i \in 1..6 |-> 1..i] /\ last = 0
+        \/ /\ Start = 2 /\ E = Spelled(Prefix2, s0)
            /\ after = [i \in 1..8 |-> IF i <= 6 THEN 1..i ELSE IF i = 7 THEN {1, 2, 4, 5, 6, 7} ELSE {1, 2, 4, 5, 6, 7, 8}]
            /\ last = 0
-        \/ /\ Start = 3 /\ E = Prefix3.E /\ after = Prefix3.after /\ last = 0
-        \/ /\ Start \in {4, 5, 8} /\ \E pud \in PrefixPuds : E = Prefix4(pud)
+        \/ /\ Start = 3 /\ E = Spelled(Prefix3.E, s0) /\ after = Prefix3.after /\ last = 0
+        \/ /\ Start \in {4, 5, 8} /\ \E pud \in PrefixPuds : E = Spelled(Prefix4(pud), s0)
            /\ after = [i \in 1..8 |-> IF i <= 6 THEN 1..i ELSE IF i = 7 THEN {1, 2, 4, 5, 6, 7} ELSE {1, 2, 4, 5, 6, 7, 8}]
            /\ last = 0
-        \/ /\ Start = 6 /\ E = Prefix2
+        \/ /\ Start = 6 /\ E = Spelled(Prefix2, s0)
            /\ after = [i \in 1..8 |-> IF i <= 6 THEN 1..i ELSE IF i = 7 THEN {1, 2, 4, 5, 6, 7} ELSE {1, 2, 4, 5, 6, 7, 8}]
            /\ last = 0
-        \/ /\ Start = 7 /\ E = Prefix7
+        \/ /\ Start = 7 /\ E = Spelled(Prefix7, s0)
            /\ after = [i \in 1..10 |-> IF i <= 6 THEN 1..i ELSE {1, 2, 4, 5, 6} \cup 7..i]
            /\ last = 0
+
+\* the creation prefix in every spelling of the run (the state sets are sets of ids: nothing else changes; the
+\* resolution inside Prefix3 does not read the spelling - StateRes!LevelsSpellingFree)
+InitRoom == \E s0 \in RoomSpells : InitRoomS(s0)
 
 Init == /\ before = {}
         /\ nbad = 0
@@ -167,7 +179,8 @@ Plausible(S, u, kind) ==
       [] kind = "invite" -> MemIn(S, u) = "join"
       [] OTHER -> MemIn(S, u) = "join" /\ (Dishonest \/ LevelIn(S, u) >= R50)
 
-Send(u, kind, t, lvl, rule, prevs, ts, S) ==
+\* sp: the spelling a power-levels event is written in ("int" for every other kind)
+SendSp(u, kind, t, lvl, rule, sp, prevs, ts, S) ==
     /\ LET i == N + 1
            depth == 1 + MaxOf({E[p].depth : p \in prevs})
            draft ==
@@ -177,10 +190,10 @@ Send(u, kind, t, lvl, rule, prevs, ts, S) ==
                [] kind = "kick" -> Ev("member", u, t, "leave", NoUsers, "", prevs, {}, depth, ts, i)
                [] kind = "invite" -> Ev("member", u, t, "invite", NoUsers, "", prevs, {}, depth, ts, i)
                [] kind = "pl" -> [Ev("pl", u, "", "", [PLIn(S).users EXCEPT ![t] = lvl], "", prevs, {}, depth, ts, i)
-                                    EXCEPT !.pud = PLIn(S).users_default]
-               [] kind = "pld" -> [Ev("pl", u, "", "", PLIn(S).users, "", prevs, {}, depth, ts, i) EXCEPT !.pud = lvl]
+                                    EXCEPT !.pud = PLIn(S).users_default, !.spell = sp]
+               [] kind = "pld" -> [Ev("pl", u, "", "", PLIn(S).users, "", prevs, {}, depth, ts, i) EXCEPT !.pud = lvl, !.spell = sp]
                [] kind = "plx" -> [Ev("pl", u, "x", "", [PLIn(S).users EXCEPT ![t] = lvl], "", prevs, {}, depth, ts, i)
-                                     EXCEPT !.pud = PLIn(S).users_default]
+                                     EXCEPT !.pud = PLIn(S).users_default, !.spell = sp]
                [] kind = "jr" -> Ev("jr", u, "", "", NoUsers, rule, prevs, {}, depth, ts, i)
                [] kind = "jrx" -> Ev("jr", u, "x", "", NoUsers, rule, prevs, {}, depth, ts, i)
                [] OTHER -> Ev("topic", u, "", "", NoUsers, "", prevs, {}, depth, ts, i)
@@ -188,6 +201,7 @@ Send(u, kind, t, lvl, rule, prevs, ts, S) ==
            auth == {p \in S : KeyOf(E, p) \in NeededKeys(E1, i)}
            E2 == [E1 EXCEPT ![i].auth = auth]
        IN /\ (kind \in {"ban", "kick", "invite"} => t # u)
+          /\ (kind \notin {"pl", "pld", "plx"} => sp = "int")
           /\ (kind = "pl" => PLIn(S).users[t] # lvl)                  \* a real change
           /\ (kind = "pld" => PLIn(S).users_default # lvl)
           /\ (kind = "jr" => ForKey(E, S, <<"jr", "">>) = {} \/ E[CHOOSE j \in ForKey(E, S, <<"jr", "">>) : TRUE].jr # rule)
@@ -202,6 +216,14 @@ Send(u, kind, t, lvl, rule, prevs, ts, S) ==
           /\ after' = Append(after, ApplyTo(E2, S, i))
           /\ last' = i
           /\ before' = S
+
+Send(u, kind, t, lvl, rule, prevs, ts, S) == SendSp(u, kind, t, lvl, rule, "int", prevs, ts, S)
+
+\* the spellings a new power-levels event may be written in: as the room's current power levels are written (a
+\* client that re-sends what it read), or plain integers (one that normalises); with nothing but integers in the
+\* run this is {"int"}
+SpellIn(S) == LET pl == ForKey(E, S, <<"pl", "">>) IN IF pl = {} THEN "int" ELSE E[CHOOSE p \in pl : TRUE].spell
+NewSpells(S, kind) == IF kind \in {"pl", "pld", "plx"} THEN {SpellIn(S)} \cup (RoomSpells \cap {"int"}) ELSE {"int"}
 
 Antichains ==
     LET ids == {x \in DOMAIN E : x >= ForkFrom} IN
@@ -218,8 +240,9 @@ Next ==
                          ELSE IF kind = "plx" THEN {"alice"} ELSE {u}),
                   lvl \in (IF kind = "pl" THEN PLLevels ELSE IF kind = "pld" THEN PudLevels
                            ELSE IF kind = "plx" THEN {PLIn(S).users["alice"], R50} ELSE {0}),
-                  rule \in (IF kind \in {"jr", "jrx"} THEN {"public", "invite"} ELSE {""}) :
-                  Send(u, kind, t, lvl, rule, prevs, ts, S)
+                  rule \in (IF kind \in {"jr", "jrx"} THEN {"public", "invite"} ELSE {""}),
+                  sp \in NewSpells(S, kind) :
+                  SendSp(u, kind, t, lvl, rule, sp, prevs, ts, S)
 
 Spec == Init /\ [][Next]_vars
 
